@@ -146,3 +146,15 @@ package types
 //@   unfold @return wfT(result)
 //@   ensures #subst wfSubst(m)
 //@   ensures #result result != nil ==> wfT(result)
+
+// slotFree decides whether an instantiated signature is fully concrete (C05)
+//@ func slotFree
+//@   props C05 C17
+//@   requires wfT(ty)
+//@   unfold wfT(ty)
+//@   unfold ground(ty)
+//@   modifies
+//@   loop 1 invariant forall(j, 0, rangeindex+1, ground(ty.Tuple().Val[j]))
+//@   loop 2 invariant forall(j, 0, rangeindex+1, ground(ty.Obj().Fields[j].Val))
+//@   loop 3 invariant forall(j, 0, rangeindex+1, ground(ty.Fun().Param[j]))
+//@   ensures #ground result == ground(ty)
